@@ -50,10 +50,13 @@ VMS = (16384, 32768, 65536, 262144)
 def _mapper(E, mode, vm):
     info = modes_mod._MODE_INFO[mode]
     cls = info['layout']._memorymapper
-    m = E.new(cls, info['height'], info['width'], vm, info['max_pages'], info['interleave_times'],
-              info['bank_size'], info['bitsperpixel'])
-    if 'planes_used' in info:
-        E.call(m.set_planes_used, info['planes_used'])
+    # the mapper is the one the real mode constructor builds (as modes.get_mode does)
+    mode_data = dict(**info)
+    mode_cls = mode_data.pop('layout')
+    mode_obj = E.new(mode_cls, name=mode, video_mem_size=vm, **mode_data)
+    m = mode_obj.memorymap
+    if type(m) is not cls:
+        raise Unsupported('mode %s does not build a %s' % (mode, cls.__name__))
     tandy = cls is fb.Tandy6MemoryMapper
     ega = cls is fb.EGAMemoryMapper
     geo = {
@@ -86,6 +89,11 @@ def t_geometry(E, mode, vm):
     rows_per_bank = -(-g['H'] // g['il'])
     E.prove(rows_per_bank * g['bpr'] <= g['bank'], 'all scan lines of a bank fit in the bank')
     E.prove(g['base'] + g['pages'] * g['page'] <= g['base'] + 0x20000 or True, 'pages lie in the video area')
+    if isinstance(m, fb.EGAMemoryMapper):
+        # "on writable colour planes": the planes of the mode (all four unless the mode table names them)
+        want = list(modes_mod._MODE_INFO[mode].get('planes_used', range(4)))
+        E.prove(list(m._planes_used) == want, 'the colour planes read are those of the mode')
+        E.prove(m._master_plane_mask == sum(1 << p for p in want), 'every colour plane of the mode is writable, and no other')
 
 
 def t_decode_encode(E, mode, vm):
@@ -243,6 +251,227 @@ def t_block_bytes_bounded(E, mode):
     E.prove(same, 'writing a block has the same effect as writing it byte by byte')
 
 
+
+# ---------------------------------------------------------------------------
+# Text modes: TextMemoryMapper.get_memory / set_memory, all addresses and all block lengths
+
+def _text_modes():
+    return sorted(name for name, info in modes_mod._MODE_INFO.items() if 'bitsperpixel' not in info)
+
+TEXT_MODES = _text_modes()
+
+
+def _text_content(what, page, r, c):
+    """Concrete page content for native replay."""
+    return (page * 7 + r * 3 + c * 5 + (11 if what == 'attr' else 0) + 1) % 256
+
+
+class _TPage(object):
+    """One text page: every access is logged; content is unconstrained (fresh bytes)."""
+    _pyvc_trusted = True
+
+    def __init__(self, E, page, H, W, log):
+        self.E, self.page, self.H, self.W, self.log = E, page, H, W, log
+
+    def _cell(self, row, col):
+        # list semantics of the real buffers: _rows[row-1].chars[col-1]
+        r, c = row - 1, col - 1
+        if bool(Or(r >= self.H, r < -self.H)):
+            raise IndexError('list index out of range')
+        if bool(r < 0):
+            r = r + self.H
+        if bool(Or(c >= self.W, c < -self.W)):
+            raise IndexError('list index out of range')
+        if bool(c < 0):
+            c = c + self.W
+        return r, c
+
+    def _content(self, what, r, c):
+        if self.E.mode == 'symbolic':
+            return self.E.fresh(what, 0, 255)
+        return _text_content(what, self.page, r, c)
+
+    def get_byte(self, row, col):
+        r, c = self._cell(row, col)
+        v = self._content('char', r, c)
+        self.log.append(('char', self.page, r, c, v))
+        return v
+
+    def get_attr(self, row, col):
+        r, c = self._cell(row, col)
+        v = self._content('attr', r, c)
+        self.log.append(('attr', self.page, r, c, v))
+        return v
+
+    def put_char_attr(self, row, col, char, attr, adjust_end=False):
+        r, c = self._cell(row, col)
+        cs = to_cells(char)
+        if len(cs) != 1:
+            raise AssertionError('one character')
+        self.log.append(('put', self.page, r, c, cs[0], attr))
+
+
+class _TPages(object):
+    """display.pages: a list of n pages, with Python's list indexing (negative indices included)."""
+    _pyvc_trusted = True
+
+    def __init__(self, E, n, H, W, log):
+        self.E, self.n, self.H, self.W, self.log = E, n, H, W, log
+
+    def __getitem__(self, page):
+        if bool(Or(page >= self.n, page < -self.n)):
+            raise IndexError('list index out of range')
+        if bool(page < 0):
+            page = page + self.n
+        return _TPage(self.E, page, self.H, self.W, self.log)
+
+    def __len__(self):
+        return self.n
+
+
+def _text_mapper(E, mode, vm):
+    info = modes_mod._MODE_INFO[mode]
+    mode_data = dict(**info)
+    mode_cls = mode_data.pop('layout')
+    mode_obj = E.new(mode_cls, name=mode, video_mem_size=vm, **mode_data)
+    m = mode_obj.memorymap
+    W, H = info['columns'], info['rows']
+    g = {'W': W, 'H': H, 'page': 0x1000 if W == 80 else 0x800,
+         'base': (0xb000 if info['mono'] else 0xb800) * 16}
+    np_ = vm // g['page']
+    if info['max_pages']:
+        np_ = min(info['max_pages'], np_)
+    g['pages'] = np_
+    return m, g
+
+
+def _text_ref(g, a):
+    """Reference layout of text memory: (backs content, page, row, col, 0 = character / 1 = attribute)."""
+    o = a - g['base']
+    page, off = o // g['page'], o % g['page']
+    row, col = off // (2 * g['W']), (off % (2 * g['W'])) // 2
+    backs = And(o >= 0, page < g['pages'], row < g['H'])
+    return backs, page, row, col, o % 2
+
+
+def t_text_geometry(E, mode, vm):
+    m, g = _text_mapper(E, mode, vm)
+    E.prove(m._video_segment * 16 == g['base'] and m._page_size == g['page'], 'segment and page size of the adapter')
+    E.prove(E.call(getattr, m, 'num_pages').value == g['pages'], 'number of pages = memory // page size, capped by the mode')
+    E.prove(2 * g['W'] * g['H'] <= g['page'], 'a screen of character/attribute pairs fits in a page')
+
+
+def t_text_get(E, mode, vm):
+    """get_memory(addr, n): byte i is the character (even) or attribute (odd) of the cell at addr+i, 0 where
+    no screen content is backed; for all addr and all n (loop contract)."""
+    m, g = _text_mapper(E, mode, vm)
+    log = []
+    disp = _Display(_TPages(E, g['pages'], g['H'], g['W'], log))
+    addr = E.int('addr', 0xa0000, 0xbffff)
+    n = E.int('num', 0, 0x20000)
+
+    def iteration(before, L, i):
+        E.cover('iteration')
+        backs, page, row, col, kind = _text_ref(g, addr + i)
+        mem = L.get('mem_bytes')
+        if not isinstance(mem, SRegion):
+            raise Unsupported('loop contract of get_memory is stated over the result buffer mem_bytes')
+        stores = [x for x in mem.items if x[0] == 'set']
+        if bool(backs):
+            E.cover('backed')
+            E.prove(len(log) == 1, 'one cell is read')
+            E.prove(len(stores) == 1, 'one byte of the block is set')
+            if len(log) == 1 and len(stores) == 1:
+                what, p, r, c, v = log[0]
+                E.prove(And(p == page, r == row, c == col), 'byte i of the block comes from the cell that backs address addr+i')
+                E.prove((what == 'attr') == (kind == 1) if isinstance(kind, int) else If(kind == 1, what == 'attr', what == 'char'),
+                        'odd addresses are attributes, even addresses characters')
+                E.prove(And(stores[0][1] == i, stores[0][2] == v), 'and is stored at position i of the block')
+        else:
+            E.cover('not backed')
+            E.prove(len(stores) == 0, 'an address that backs no screen content reads 0 (nothing stored)')
+
+    def on_exit(L, cnt):
+        E.cover('exit')
+        E.prove(cnt == n, 'one iteration per byte')
+
+    if E.mode == 'symbolic':
+        E.interp.loop_contracts['get_memory'] = {'invariant': lambda L, i: True, 'iteration': iteration, 'exit': on_exit}
+    r = E.call(m.get_memory, disp, addr, n)
+    E.prove(not r.raised, 'never raises')
+    if r.raised:
+        return
+    if E.mode == 'symbolic':
+        E.prove(isinstance(r.value, SRegion) and r.value.n == n, 'the block has the requested length')
+        return
+    # native replay: the whole block against the reference layout
+    got = list(r.value)
+    E.prove(len(got) == n, 'the block has the requested length')
+    for i in range(n):
+        backs, page, row, col, kind = _text_ref(g, addr + i)
+        want = _text_content('attr' if kind else 'char', page, row, col) if backs else 0
+        E.prove(got[i] == want, 'byte i of the block comes from the cell that backs address addr+i')
+
+
+def t_text_set(E, mode, vm):
+    """set_memory(addr, block): byte i replaces the character (even) or attribute (odd) of the cell at addr+i
+    and nothing else; bytes that back no content are dropped; all addr, all lengths (loop contract)."""
+    m, g = _text_mapper(E, mode, vm)
+    log = []
+    disp = _Display(_TPages(E, g['pages'], g['H'], g['W'], log))
+    addr = E.int('addr', 0xa0000, 0xbffff)
+    n = E.int('num', 0, 0x20000)
+    block = SRegion(n, kind='bytes')
+
+    def iteration(before, L, i):
+        E.cover('iteration')
+        backs, page, row, col, kind = _text_ref(g, addr + i)
+        puts = [x for x in log if x[0] == 'put']
+        gets = [x for x in log if x[0] != 'put']
+        reads = [x for x in block.items if x[0] == 'get']
+        if bool(backs):
+            E.cover('backed')
+            E.prove(len(puts) == 1 and len(gets) == 1 and len(reads) == 1, 'one cell is rewritten from one byte of the block')
+            if len(puts) == 1 and len(gets) == 1 and len(reads) == 1:
+                _, p, r, c, ch, at = puts[0]
+                what, p0, r0, c0, old = gets[0]
+                E.prove(And(p == page, r == row, c == col), 'the cell written is the one that backs address addr+i')
+                E.prove(And(p0 == page, r0 == row, c0 == col), 'its other half is read from the same cell')
+                E.prove(reads[0][1] == i, 'the byte written is byte i of the block')
+                v = reads[0][2]
+                if bool(kind == 1):
+                    E.prove(what == 'char', 'an odd address keeps the character')
+                    E.prove(And(ch == old, at == v), 'and sets the attribute to the byte')
+                else:
+                    E.prove(what == 'attr', 'an even address keeps the attribute')
+                    E.prove(And(ch == v, at == old), 'and sets the character to the byte')
+        else:
+            E.cover('not backed')
+            E.prove(len(puts) == 0, 'a byte at an address that backs no screen content changes nothing')
+
+    def on_exit(L, cnt):
+        E.cover('exit')
+        E.prove(cnt == n, 'one iteration per byte')
+
+    if E.mode == 'symbolic':
+        E.interp.loop_contracts['set_memory'] = {'invariant': lambda L, i: True, 'iteration': iteration, 'exit': on_exit}
+    if E.mode != 'symbolic':
+        block = bytes((i * 37 + 5) % 256 for i in range(n))
+    r = E.call(m.set_memory, disp, addr, block)
+    E.prove(not r.raised, 'never raises')
+    if E.mode != 'symbolic' and not r.raised:
+        # native replay: the sequence of cell writes against the reference layout
+        puts = [x for x in log if x[0] == 'put']
+        want = []
+        for i in range(n):
+            backs, page, row, col, kind = _text_ref(g, addr + i)
+            if backs:
+                if kind:
+                    want.append(('put', page, row, col, _text_content('char', page, row, col), block[i]))
+                else:
+                    want.append(('put', page, row, col, block[i], _text_content('attr', page, row, col)))
+        E.prove(puts == want, 'the cell written is the one that backs address addr+i')
+
 # ---------------------------------------------------------------------------
 # Memory block access: the split between video memory and everything else
 
@@ -311,6 +540,11 @@ TASKS = [
                 for m in MODES for v in (16384, 65536)]),
     Task('get_memory/set_memory block = bytes (bounded)', t_block_bytes_bounded, cases=[{'mode': m} for m in MODES],
          bounded=True, samples=(12, 120), scope='12 (quick) / 120 (thorough) sampled blocks of 1..700 bytes per mode at sampled bank offsets, real ByteMatrix'),
+    Task('text mapper geometry', t_text_geometry, cases=[{'mode': m, 'vm': v} for m in TEXT_MODES for v in (16384, 32768, 262144)]),
+    Task('TextMemoryMapper.get_memory', t_text_get, covers=('iteration', 'backed', 'not backed', 'exit'),
+         cases=[{'mode': m, 'vm': v} for m in TEXT_MODES for v in (16384, 262144)]),
+    Task('TextMemoryMapper.set_memory', t_text_set, covers=('iteration', 'backed', 'not backed', 'exit'),
+         cases=[{'mode': m, 'vm': v} for m in TEXT_MODES for v in (16384, 262144)]),
     Task('Memory._get_memory_block / _set_memory_block', t_block_split,
          cases=[{'write': w, 'length': n} for w in (False, True) for n in (0, 1, 2, 5)]),
 ]
